@@ -28,7 +28,7 @@ def ingest_profile(o):
     return Profile("ingest", run, "ingestdriver", view=_view)
 
 
-C17_MONITORS = {"convert-lost-referrer", "convert-extra-referrer", "convert-lost-tag", "convert-lost-manifest",
+C17_MONITORS = {"convert-wrong-descriptor", "convert-lost-referrer", "convert-extra-referrer", "convert-lost-tag", "convert-lost-manifest",
                 "convert-lost-blob", "not-marked-converted", "reconvert-differs", "interrupted-reconvert-differs",
                 "ingest-hangs", "ingest-error"}
 
